@@ -353,4 +353,44 @@ def r4_6(ctx: Ctx) -> RuleResult:
     return rr
 
 
-RULES = [r4_1, r4_2, r4_3, r4_4, r4_5, r4_6]
+def r4_7(ctx: Ctx) -> RuleResult:
+    """RFC 6901: a reference token names the member of that name.  The non-standard readings of a token (`#name`,
+    the keys-selector prefix, the decimal spelling of an index as a key) are fall-backs: a value that is not the
+    result of the plain lookup `getitem(obj, key)` is returned only where that lookup has failed, i.e. from inside
+    an exception handler of the `try` that performs it."""
+    from sa.flow import parent_map
+
+    rr = RuleResult("R4.7", "non-standard readings of a token apply only after the plain lookup failed", floor=3)
+    fn = ctx.repo.require_func("JSONPointer._getitem")
+    params = [a.arg for a in fn.node.args.args]
+    if len(params) < 3:  # noqa: PLR2004
+        raise AnalysisError("R4.7: JSONPointer._getitem(self, obj, key) signature changed")
+    obj, key = params[1], params[2]
+
+    def is_plain(c: ast.AST) -> bool:
+        return (isinstance(c, ast.Call) and callee_name(c) == "getitem" and len(c.args) == 2 and path_of(c.args[0]) == obj  # noqa: PLR2004
+                and path_of(c.args[1]) == key) or (
+            isinstance(c, ast.Subscript) and isinstance(c.ctx, ast.Load) and path_of(c.value) == obj and path_of(c.slice) == key)
+
+    tries = [t for t in ast.walk(fn.node) if isinstance(t, ast.Try) and any(is_plain(c) for b in t.body for c in ast.walk(b))]
+    if not tries:
+        raise AnalysisError("R4.7: the plain lookup getitem(obj, key) inside a try was not found in JSONPointer._getitem")
+    plain_try = tries[0]
+    plain_vars = {t_.id for b in plain_try.body for a in ast.walk(b) if isinstance(a, ast.Assign) and is_plain(a.value)
+                  for t_ in a.targets if isinstance(t_, ast.Name)}
+    parents = parent_map(fn.node)
+    in_handler = {id(n) for h in plain_try.handlers for n in ast.walk(h)}
+    for r in [n for n in ast.walk(fn.node) if isinstance(n, ast.Return) and n.value is not None]:
+        if is_plain(r.value) or (isinstance(r.value, ast.Name) and r.value.id in plain_vars):
+            rr.ok(fn.loc(r), f"`{short(r)}` is the plain lookup")
+        elif id(r) in in_handler:
+            rr.ok(fn.loc(r), f"`{short(r)}`: a fall-back, after the plain lookup failed")
+        else:
+            rr.bad(fn, r, f"`{short(r)}` returns a non-standard reading of the token without the plain lookup having failed: a member whose "
+                   "name is the token itself (e.g. `#a` next to `a`) can no longer be reached by its own pointer",
+                   construct=f"_getitem: {short(r)} before the plain lookup")
+    _ = parents
+    return rr
+
+
+RULES = [r4_1, r4_2, r4_3, r4_4, r4_5, r4_6, r4_7]
